@@ -53,8 +53,10 @@ Verts == V \cup BadVals
 LabeledKind == Kind \in {"nolabel", "labeled"}
 LArgs == IF Kind = "nolabel" THEN {DefL} ELSE LabelArgs
 
+RelocateHow == {"copyassign", "moveassign", "moveconstruct", "swap", "selfassign"}
 AllCalls ==
     {[op |-> "resize", k |-> k] : k \in 0 .. MaxN}
+    \cup {[op |-> "relocate", how |-> h] : h \in RelocateHow}
     \cup {[op |-> o] : o \in {"clearEdges", "removeDuplicateEdges", "removeSelfLoops"}}
     \cup {[op |-> "removeVertexFromEdgeList", v |-> v] : v \in Verts}
     \cup {[op |-> "removeEdge", i |-> p[1], j |-> p[2]] : p \in Pairs}
